@@ -215,7 +215,9 @@ def show_error_params(repo):
         min_line = max(lineno - self.CONTEXT_LINES, 1)
         max_line = min(lineno + self.CONTEXT_LINES + E, len(lines) + 1)
         for i in range(min_line, max_line): ... lines[i - 1]
-    -> (CONTEXT_LINES, E, B, M)"""
+    further guarded previous-line lookups (the add-ignores branch) are collected as (B, M) pairs;
+    slices of `lines` never raise and are skipped
+    -> (CONTEXT_LINES, E, B, M, [(B', M'), ...])"""
     tree = _parse(repo, "node_visitor.py")
     cls = _find(tree, ast.ClassDef, "BaseNodeVisitor")
     fn, ctx_lines = None, None
@@ -231,10 +233,12 @@ def show_error_params(repo):
     for n in ast.walk(fn):
         for c in ast.iter_child_nodes(n):
             parents[c] = n
-    prev = None
+    prevs = []
     for n in ast.walk(fn):
         if not (isinstance(n, ast.Subscript) and isinstance(n.value, ast.Name) and n.value.id == "lines" and isinstance(n.ctx, ast.Load)):
             continue
+        if isinstance(n.slice, ast.Slice):
+            continue  # a slice of `lines` never raises
         k = _lineno_minus(n.slice)
         ki = _lineno_minus(n.slice, "i")
         if ki is not None:
@@ -256,13 +260,14 @@ def show_error_params(repo):
                     guard = _int_const(t.comparators[0])
                 break
             c = p
-        if prev is not None:
-            raise TranslateError(f"node_visitor.py:{n.lineno}: more than one previous-line subscript")
         if guard is None:
             raise TranslateError(f"node_visitor.py:{n.lineno}: lines[lineno - {k}] is not guarded by `... if lineno >= M else ...`")
-        prev = (k, guard)
-    if prev is None:
+        prevs.append((n.lineno, k, guard))
+    if not prevs:
         raise TranslateError("node_visitor.py: previous-line subscript not found in show_error")
+    prevs.sort()
+    prev = (prevs[0][1], prevs[0][2])           # the ignore-comment test: always evaluated
+    more = [(k, g) for _, k, g in prevs[1:]]    # later ones (add-ignores branch)
     after = None
     seen_min = False
     for n in ast.walk(fn):
@@ -285,7 +290,7 @@ def show_error_params(repo):
                     raise TranslateError(f"node_visitor.py:{n.lineno}: max_line is not min(lineno + self.CONTEXT_LINES + E, len(lines) + 1)")
     if not seen_min or after is None:
         raise TranslateError("node_visitor.py: context loop bounds not found")
-    return ctx_lines, after, prev[0], prev[1]
+    return ctx_lines, after, prev[0], prev[1], more
 
 
 def _name_of(e):
@@ -511,7 +516,8 @@ def translate(repo: str) -> str:
     h = value_hierarchy(repo)
     unwrapped, handled, else_raises = boolability_chain(repo)
     methods, generic_raises = annotation_visitor(repo)
-    se_c, se_e, se_b, se_m = show_error_params(repo)
+    se_c, se_e, se_b, se_m, se_more = show_error_params(repo)
+    se_more_txt = "[" + "; ".join(f"({b}%Z, {m}%Z)" for b, m in se_more) + "]"
     chains, enums = enum_chains(repo)
     bhandled, bfamily = bound_chain(repo)
     chain_rows = ";\n".join(f"  ({_s(f)}, {_s(fn)}, {_s(subj)}, {_s(e)}, {_sl(ms)})" for f, fn, subj, e, ms in chains)
@@ -531,7 +537,8 @@ def translate(repo: str) -> str:
         f"Definition annotation_generic_raises : bool := {'true' if generic_raises else 'false'}.\n"
         f"Definition expr_kinds : list string := {_sl(expr_kinds())}%list.\n\n"
         f"Definition show_error_params : emit_params :=\n"
-        f"  {{| ep_context := {se_c}%Z; ep_after_extra := {se_e}%Z; ep_prev_off := {se_b}%Z; ep_prev_min := {se_m}%Z |}}.\n\n"
+        f"  {{| ep_context := {se_c}%Z; ep_after_extra := {se_e}%Z; ep_prev_off := {se_b}%Z; ep_prev_min := {se_m}%Z;\n"
+        f"     ep_more_prev := {se_more_txt}%list |}}.\n\n"
         f"Definition enum_members : list (string * list string) := [{enum_rows}]%list.\n"
         f"Definition enum_chains : list (string * string * string * string * list string) := [\n{chain_rows}\n]%list.\n"
         f"Definition bound_chain_handled : list string := {_sl(bhandled)}%list.\n"
